@@ -12,7 +12,7 @@ CHECKS = {
         category="model_checking",
         engine="E2 + H1",
         technique="stateless schedule exploration (hand-rolled, CHESS style): all await-point interleavings of k client tasks against the real Clock actor, re-execution from choice prefixes, deviation-bounded for k=3",
-        text="k=2 client tasks with 2-4 calls each (get_time / register_ts of stamps in the same tick, 1 s ahead, near the drift limit, beyond it, with the clock's own node id) are explored over ALL interleavings of their await points; k=3 up to 2 (quick) / 3 (thorough) deviations; three injected wall-clock behaviours (stalled, ticking, jumping backwards). Every execution is checked: stamps pairwise distinct, strictly increasing per task, every get_time invoked after a register_ts returned exceeds the registered stamp unless it was beyond the drift limit. Every 97th execution is run twice and must reproduce.",
+        text="k=2 client tasks with 2-4 calls each (get_time / register_ts of stamps in the same tick, 1 s ahead, near the drift limit, beyond it, with the clock's own node id) are explored over ALL interleavings of their await points; k=3 up to 2 (quick) / 3 (thorough) deviations, in fine-grained mode (one poll of one task - a caller or the clock actor - per step, runtime event_interval 1); three injected wall-clock behaviours (stalled, ticking, jumping backwards). Every execution is checked: stamps pairwise distinct, strictly increasing per task, every get_time invoked after a register_ts returned exceeds the registered stamp unless it was beyond the drift limit. Every 97th execution is run twice and must reproduce.",
         note="Current-thread runtime, await-point granularity. Multi-threaded runtimes are argued equivalent to some FIFO enqueue order into the actor's channel (DESIGN.md), not explored.",
         design="DESIGN.md section 3, C11",
     ),
@@ -20,7 +20,7 @@ CHECKS = {
         category="model_checking",
         engine="E1/E2 + H4",
         technique="exhaustive enumeration of event schedules (snapshot pushes, watcher runs, subscription point, read placements) around the real watch_membership_changes task, with a subscriber built exactly like DatacakeNode::membership_changes()",
-        text="All snapshot sequences up to length 3 (quick) / 4 (thorough) over 6 snapshots (peers 1 and 2, two addresses for peer 1: joins, leaves, address changes, rejoin), every burst pattern, every subscription point, every subset of read positions. Oracle at quiescence: the subscriber's map (left applied before joined) equals the live peers with addresses; every departure appears in some `left` with the address the node had; a prompt subscriber never diverges. The lost-delta defect for late/slow subscribers is a recorded known finding (7 failure-mode keys); every other failure mode is reported as a violation.",
+        text="All snapshot sequences up to length 4 (quick) / 5 (thorough) over 7 snapshots (peers 1 and 2, each absent or at one of two addresses which they can hand over to each other: joins, leaves, address changes, rejoin, replacement on the same address, takeover of a departed node's address), every burst pattern, every subscription point, every subset of read positions. Oracle at quiescence: the subscriber's map (left applied before joined) equals the live peers with addresses; every departure appears in some `left` with the address the node had; a prompt subscriber never diverges. The lost-delta defect for late/slow subscribers is a recorded known finding (7 failure-mode keys); every other failure mode is reported as a violation.",
         note="Membership enters as explicit snapshots on the channel chitchat would publish to; the gossip layer itself is not explored.",
         design="DESIGN.md section 3, C16",
     ),
@@ -44,8 +44,8 @@ CHECKS = {
         category="fault_enumeration",
         engine="E3 (turmoil, separate binary vsim)",
         technique="exhaustive enumeration of fault scripts (hold/release/partition/repair at 16 decision instants, <=1 event quick / <=2 thorough) over the real hyper/h2 client and server on turmoil's simulated network with fixed latency and seeded RNG; every run repeated for reproducibility; workers in child processes",
-        text="Workloads: three sequential requests; two concurrent first requests on a fresh channel; three concurrent requests on a warmed-up connection; one 1 MiB request (multi-chunk bodies). Handler delays 0 / 0.5 s / 3 s, client timeout 2 s or none. For every script and combination each request must return Ok(id*10) for its own id with its payload echo intact, or a ConnectionError/Timeout status, nothing else and no panic; the handler runs at most once per id; with a timeout configured the call returns within 2 s (+5 ms) of simulated time. A simulation that aborts the process is isolated in a child process and reported as a violation.",
-        note="turmoil 0.4 model: hold delays, partition drops without retransmission. A request without client timeout that never completes is an allowed outcome.",
+        text="Workloads: three sequential requests; two concurrent first requests on a fresh channel; three concurrent requests on a warmed-up connection; one 1 MiB request (multi-chunk bodies); 9 sets of concurrent large replies (45-75 KB together, against the 64 KiB HTTP/2 connection window); 9 variants of typed requests issued while a 20-55 KB raw-body download on the same channel is left unread (replies then start with a short frame and continue after the window update). Handler delays 0 / 0.5 s / 3 s, client timeout 2 s or none. For every script and combination each request must return Ok(id*10) for its own id with its payload echo intact, or a ConnectionError/Timeout status, nothing else and no panic; the handler runs at most once per id; with a timeout configured the call returns within 2 s (+5 ms) of simulated time. A simulation that aborts the process is isolated in a child process and reported as a violation.",
+        note="turmoil 0.4 model: hold delays, partition drops without retransmission. A request without client timeout that never completes is an allowed outcome. turmoil 0.4's own TcpStream::poll_read panics when a segment does not fit the reader's buffer; scenarios that hit it are counted (<=5% by a guard) and not judged.",
         design="DESIGN.md section 3, C14",
     ),
     "C15": dict(
@@ -60,16 +60,16 @@ CHECKS = {
         category="model_checking",
         engine="E1 refinement",
         technique="explicit-state BFS over the reference model's state graph; every transition re-executed on a fresh real backend (MemStore, SQLite memory/file, LMDB) by shortest-path replay, full read surface compared (refinement check); reopen as a transition",
-        text="Model = keyspace -> id -> (stamp, live bytes | tombstone). Alphabet: 2 keyspaces, ids {1, 2^63+5}, payloads {empty, x, 64 KiB}, 3 non-monotonic stamps, put / multi_put (incl. same id twice) / mark_as_tombstone (incl. absent ids and empty keyspaces) / mark_many / remove_tombstones (tombstoned ids only) / close-and-reopen. Every transition is executed on the real backend and get, multi_get, iter_metadata, keyspace list (and raw SQLite rows) must equal the model. Closure of the reduced alphabet on MemStore/SQLite (quick), full alphabet and LMDB/SQLite-file closure with reopen (thorough).",
+        text="Model = keyspace -> id -> (stamp, live bytes | tombstone). Alphabet: 2 keyspaces, ids {2, 2^63+1}, payloads {empty, x, 64 KiB}, 3 non-monotonic stamps, put / multi_put (incl. same id twice) / mark_as_tombstone (incl. absent ids and empty keyspaces) / mark_many / remove_tombstones (tombstoned ids only) / close-and-reopen. Every transition is executed on the real backend and get, multi_get, iter_metadata, keyspace list (asked before any other read, between the reads of two keyspaces and at the end, because a handle may answer from what it has touched so far) and raw SQLite rows must equal the model. Closure of the reduced alphabet on MemStore/SQLite and depth 3 with reopen on SQLite-file/LMDB (quick), full alphabet and LMDB/SQLite-file closure with reopen (thorough).",
         note="I/O failures and torn writes are not modelled. Keyspace-list oracle allows empty keyspaces to be listed or not.",
         design="DESIGN.md section 3, C17",
     ),
     "C01": dict(
         category="model_checking",
         engine="E1/E2 Layer B cluster (choice-point exploration by re-execution)",
-        technique="stateless exploration of a real in-process cluster: exhaustive operation histories x deviation-bounded enumeration of every environment choice point (per-RPC deliver/lose request/lose reply, extra flush/repair/restart events, late flushes, closing order) by re-execution from choice prefixes; plus all await-point interleavings (preemption-bounded) of two concurrent client operations",
-        text="Real nodes (Clock, KeyspaceGroup + actors, in-process RPC services, selector, distributor behind a flush gate, poller one cycle at a time, public ReplicatedStoreHandle) are driven through every history of put/del/put_many/del_many (levels None/All, One in thorough) on 2 keys: quick = N=2 with 2 ops <=2 deviations and 3 ops <=1, N=3 2 ops <=1, MemStore variant, concurrency block with <=3 preemptions (~340k executions); thorough = N=2 up to 4 ops / 3 deviations, N=3 up to 3 ops, <=5 preemptions. After the closing exchanges (every ordered pair, order itself a choice) and again after late batch flushes all nodes must return the same live documents, equal per id to the locally issued write with the greatest stamp (from the issuers' storage logs); set/store agreement (C02) is a side condition on every node.",
-        note="Bounded: 2-3 nodes, 2 keys, <=4 operations, <=3 deviations; one forgiveness period; fixed membership; repair RPCs are not faulted (a failed exchange has not completed). In-process transport instead of HTTP/2.",
+        technique="stateless exploration of a real in-process cluster: exhaustive operation histories x deviation-bounded enumeration of every environment choice point (per-RPC deliver/lose request/lose reply incl. the requests of mid-history repair exchanges, extra flush/repair/restart/61-minute-jump events, a node unreachable until a chosen moment, late flushes, closing order) by re-execution from choice prefixes; plus all await-point interleavings (preemption-bounded) of two concurrent client operations",
+        text="Real nodes (Clock, KeyspaceGroup + actors, in-process RPC services, selector, distributor behind a flush gate, poller one cycle at a time, public ReplicatedStoreHandle) are driven through every history of put/del/put_many/del_many (levels None/All, One in thorough) on 2 keys: quick = N=2 with 2 ops <=2 deviations and 3 ops <=1, N=3 2 ops <=1, MemStore variant, lagging-node block, clock-skew block, faulty-repair blocks (1 op <=4, 2 ops <=2 deviations), 61-minute-jump block, two scripted 'sharp driver' skeletons (a node misses the first operation, 61 minutes pass, it receives the second one, restarts or not) with <=1 deviation on top, concurrency block (two operations, or a repair cycle racing with an operation, fine-grained) with <=3 preemptions (~1 M executions, 13 s); thorough = N=2 up to 4 ops / 3 deviations, N=3 up to 3 ops, every special block deeper, <=5 preemptions. After the closing exchanges (every ordered pair, order itself a choice) and again after late batch flushes all nodes must return the same live documents, equal per id to the locally issued write with the greatest stamp (from the issuers' storage logs); set/store agreement (C02) is a side condition on every node.",
+        note="Bounded: 2-3 nodes, 2 keys, <=4 operations, <=3 deviations; fixed membership; repair requests are faulted in dedicated N=2 blocks only; the closing exchanges always complete. In-process transport instead of HTTP/2.",
         design="DESIGN.md section 3, C01",
     ),
     "C06": dict(
@@ -84,7 +84,7 @@ CHECKS = {
         category="model_checking",
         engine="E1 by replay, Layer B single node",
         technique="explicit-state BFS by history replay on the real keyspace actor with a fault-injecting storage wrapper; state = (decoded Serialize reply, store rows); agreement oracle after every request",
-        text="Requests Set/Del/MultiSet (incl. the same id twice, both stamp orders)/MultiDel/PurgeDeletes with stamps from a grid with >1h gaps, two origins, both sources, any arrival order, and per storage call the answers ok / fail-before / fail-after-k (exactly the written ids reported) are sent to the real actor through its mailbox. After every request, successful or failed, live ids+stamps of the set must equal the store's documents, tombstones must equal the store's tombstones, and stored bytes must belong to the write whose stamp the row carries. Depth 3 on a harness map store and depth 2 on MemStore (quick), depth 4/3 (thorough).",
+        text="Requests Set/Del/MultiSet (incl. the same id twice, both stamp orders)/MultiDel/PurgeDeletes with stamps from a grid with >1h gaps, two origins, both sources, any arrival order, and per storage call the answers ok / fail-before / fail-after-k / fail-only-document-i (exactly the written ids reported; the last is a non-prefix partial failure) are sent to the real actor through its mailbox. After every request, successful or failed, live ids+stamps of the set must equal the store's documents, tombstones must equal the store's tombstones, and stored bytes must belong to the write whose stamp the row carries. Depth 3 on a harness map store and depth 2 on MemStore (quick), depth 4/3 (thorough).",
         note="Bulk calls with a duplicated id are not combined with partial storage failure (contract ambiguity). Single-document storage calls fail atomically.",
         design="DESIGN.md section 3, C02",
     ),
@@ -92,7 +92,7 @@ CHECKS = {
         category="model_checking",
         engine="E2, Layer B single node",
         technique="stateless schedule exploration of all await-point interleavings of k concurrent first users of a fresh keyspace on a real node (four real entry paths), re-execution from choice prefixes",
-        text="k=2 tasks (all 9 combinations of entry paths: group lookup + Set, public put, incoming ConsistencyService RPC, incoming GetState RPC) over ALL interleavings, k=3 up to 2 (quick) / 4 (thorough) deviations. After each execution the set returned by a new lookup must contain every acknowledged id and storage must hold exactly the acknowledged writes.",
+        text="k=2 tasks (all 9 combinations of entry paths: group lookup + Set, public put, incoming ConsistencyService RPC, incoming GetState RPC) over ALL interleavings, k=3 up to 2 (quick) / 4 (thorough) deviations, fine-grained mode (one task poll per step). After each execution the set returned by a new lookup must contain every acknowledged id and storage must hold exactly the acknowledged writes.",
         note="Await-point granularity on a current-thread runtime; the property's window lies across awaits.",
         design="DESIGN.md section 3, C18",
     ),
@@ -100,7 +100,7 @@ CHECKS = {
         category="exploration",
         engine="E4 + E1 by replay, Layer B",
         technique="bounded exhaustive enumeration of sender states (generator states, size grid covering every frame-length residue, origin/source families, 1k-20k entries) transferred through the real ReplicationService/ReplicationClient, plus BFS by replay over sender histories with a peer fetching after every request",
-        text="Static: ~1 700 (quick) / ~4 000 (thorough) distinct sender states are installed with add_state and fetched with the real get_state RPC; the received set must equal the sender's full snapshot (live, tombstones, per-source stamps, cut-offs) and decide a probe grid of will_apply/insert/delete identically. Dynamic: histories of sets, deletes and purges to depth 4/5 on a real node; after every request the state a peer obtains must equal the sender's Serialize reply at that moment.",
+        text="Static: ~1 700 (quick) / ~4 000 (thorough) distinct sender states are installed with add_state and fetched with the real get_state RPC; the received set must equal the sender's full snapshot (live, tombstones, per-source stamps, cut-offs) and decide a probe grid of will_apply/insert/delete identically. Dynamic: histories of sets, deletes and purges to depth 4/5 on a real node; after every request the state a peer obtains must equal the sender's Serialize reply at that moment. Undecodable states: a fake peer registered under the real service name and message path answers GetState with 244 (quick) / ~1 000 (thorough) blobs (empty, short, text, truncations and byte inversions of a genuine state on a grid, every single-bit flip of its last 24/96 bytes), each probed in its own child process; whenever rkyv's validating decoder refuses the bytes the client must return an error (not a state, not a panic or abort), and whenever it accepts them the client must return the same state; a control transfer of the genuine state guards the impersonation.",
         note="In-process transport (single-chunk reply). Debug assertions on: misaligned/out-of-bounds decoding panics instead of being UB.",
         design="DESIGN.md section 3, C19",
     ),
@@ -108,7 +108,7 @@ CHECKS = {
         category="fault_enumeration",
         engine="E1 by replay + crash points, Layer B single node",
         technique="exhaustive crash-point enumeration over request histories on the real keyspace group/actors: after every history and inside every possible next request after each document written by storage; restart = fresh KeyspaceGroup + real load_states_from_storage on the same store, compared with the store's rows",
-        text="Histories over ~35 (quick) / ~65 (thorough) requests on two keyspaces (single and bulk, two ids sharing one stamp as put_many/del_many produce, same id twice, both sources, purge, transient storage failures) are enumerated breadth-first to depth 3/4 and deduplicated by the node's whole state. At every crash point the rebuilt sets must hold exactly the live ids, tombstones and stamps storage holds for every keyspace storage lists, keyspaces with rows must be listed, the restarted node must keep agreeing with its store after one more request, and every request that was acknowledged must be durable in storage (at that stamp or newer, unless behind the cut-off). Thorough adds file-backed SQLite and LMDB with a real stop (runtime dropped, environment closed) and reopen.",
+        text="Histories over ~35 (quick) / ~65 (thorough) requests on two keyspaces (single and bulk, two ids sharing one stamp as put_many/del_many produce, same id twice, both sources, purge, transient storage failures) are enumerated breadth-first to depth 4/5 (state cap 30 k / 300 k, a cap hit is reported with the depth completed) and deduplicated by the node's whole state. At every crash point the rebuilt sets must hold exactly the live ids, tombstones and stamps storage holds for every keyspace storage lists, keyspaces with rows must be listed, the restarted node must keep agreeing with its store after one more request, every acknowledged request must be durable in storage (the newest acknowledged mutation per id, at that stamp or newer, unless behind the cut-off), and between requests the rebuilt set must accept every pool operation the pre-restart set accepted (a restart must not make the node refuse repair traffic). Thorough adds file-backed SQLite and LMDB with a real stop (runtime dropped, LMDB worker thread joined, environment closed) and reopen; in-request crash points wait for the storage wrapper's park signal because these backends write on their own thread.",
         note="Crash granularity = storage call boundaries and 'storage wrote k documents, set not yet updated'. Torn writes inside SQLite/LMDB are not modelled.",
         design="DESIGN.md section 3, C07",
     ),
@@ -140,7 +140,7 @@ CHECKS = {
         category="model_checking",
         engine="E1 clock states",
         technique="explicit-state BFS over (clock value, newest stamp issued/accepted) driving the real HLCTimestamp::send/recv with injected wall-clock readings",
-        text="BFS to depth 4 (quick) / 6 (thorough) over clock states; every transition picks one of 10 raw wall readings (stall, +1/3/4 ms, +1 s, -4 ms, -1 s, -2 h, drift boundary) and send or recv of a 64-message grid (same/older/newer time, counters 0/1/65534/65535, own/other node id, drift-4ms/drift/drift+4ms). Postconditions of the statement are evaluated on every transition, errors must leave the clock bit-identical and must be justified.",
+        text="BFS to depth 5 (quick) / 9 (thorough) over clock states; every transition picks one of 10 raw wall readings (stall, +1/3/4 ms, +1 s, -4 ms, -1 s, -2 h, drift boundary) and send or recv of a 64-message grid (same/older/newer time, counters 0/1/65534/65535, own/other node id, drift-4ms/drift/drift+4ms). Postconditions of the statement are evaluated on every transition, errors must leave the clock bit-identical and must be justified.",
         note="State merging by (clock, newest stamp) is sound because the oracle reads nothing else of the past. Wall clock injected through the cfg(datacake_verif) seam; quantisation to 4 ms stays real.",
         design="DESIGN.md section 3, C09",
     ),
@@ -156,7 +156,7 @@ CHECKS = {
         category="model_checking",
         engine="E4/E1 Layer A",
         technique="exhaustive enumeration of arrival orders x source assignments on the real OrSWotSet (stateless DFS), reference LWW oracle after every step",
-        text="Every ordered selection (<=4 quick / <=6 thorough, one duplicated delivery allowed) of a 10-operation pool, every source assignment, for 1, 2 and 3 sources, is executed on the real OrSWotSet; after every step the lookups must equal the greatest-timestamp reference and will_apply == return value == 'the key's view changed'. Bounded model checking of the real code is the right level: the property quantifies over arrival orders, and every defect found by reading needs <=3 operations.",
+        text="Every ordered selection (<=5 quick / <=6 thorough, <=7 for two sources in thorough; one duplicated delivery allowed) of a 10-operation pool, every source assignment, for 1, 2 and 3 sources, is executed on the real OrSWotSet; after every step the lookups must equal the greatest-timestamp reference and will_apply == return value == 'the key's view changed'. Bounded model checking of the real code is the right level: the property quantifies over arrival orders, and every defect found by reading needs <=3 operations.",
         note="Bounded: 2 keys, 2 origins, 10 fixed stamps (ties in counter-only and node-only included, gaps below and above one hour). Precondition enforced by harness bookkeeping. Trusts rustc and the harness's 30-line LWW oracle.",
         design="DESIGN.md section 3, C04",
     ),
